@@ -103,6 +103,20 @@ def check_mvarray(res, L, rng, tag, reps):
             res.violate('MVArray.sum/gp/op are not left folds', dict(site, k=k, values=vf.tolist()), None, None, dict(site, op='folds'))
         if not np.array_equal(vf, F.value):
             res.violate('MVArray.sum/gp/op modified the array', dict(site, k=k), None, None, dict(site, op='folds-pure'))
+        # folds on arrays whose elements have different coefficient dtypes (narrowest first): int64, float64, complex128
+        if L.dims >= 2:
+            b1, b2 = L.blades_list[1], L.blades_list[min(2, len(L.blades_list) - 1)]
+            for elems, nm in (([b1, 0.5 * b2, 0.25 * b1 + 1.5], 'int-then-float'), ([0.5 * b1, (1 + 2j) * b2, b1], 'real-then-complex'),
+                              ([b1, (0.5 + 0.25j) * b2], 'int-then-complex')):
+                Fm = cf.MVArray(elems)
+                res.case(('folds-mixed', tag, nm), nontrivial=True)
+                res.count('folds_mixed')
+                acc_s, acc_g, acc_o = elems[0], elems[0], elems[0]
+                for e in elems[1:]:
+                    acc_s, acc_g, acc_o = acc_s + e, acc_g * e, acc_o ^ e
+                if not (common.eq(Fm.sum(), acc_s) and common.eq(Fm.gp(), acc_g) and common.eq(Fm.op(), acc_o)):
+                    res.violate('MVArray.sum/gp/op are not left folds on a mixed-dtype array', dict(site, kind=nm), [Fm.sum().value.tolist()], [acc_s.value.tolist()],
+                                dict(site, op='folds-mixed', kind=nm))
         # A(g), dual, normal map over elements
         g = int(rng.integers(0, L.dims + 1))
         res.case(('maps', tag, tuple(shape), g, va.tobytes()))
